@@ -58,6 +58,7 @@ fn main() {
     let mut rng = Rng::new(o.seed);
     let sink: Sink = match stream.as_str() {
         "version" => streams::version::run(&o, &mut rng),
+        "time" => streams::time::run(&o, &mut rng),
         s => { eprintln!("unknown stream {}", s); std::process::exit(2); }
     };
     sink.write(&o.out).expect("write output");
